@@ -185,7 +185,7 @@ Proof.
     cbn [lrun lstep]. rewrite Hc. cbn [lcleaner lstopch]. rewrite Hs. cbn [lcallers lrunningch].
     rewrite Hi. cbn [lrun]. split; [reflexivity|]. cbn [lcallers]. eapply nth_set_nth_eq. exact Hi.
   - exists [LStopReturn i]. eexists. split; [repeat constructor|].
-    cbn [lrun lstep]. rewrite Hi. assert (Hr : lrunningch s = true) by (apply H1; exact Hc).
+    cbn [lrun lstep]. rewrite Hi. assert (Hr : lrunningch s = true) by (apply H1; reflexivity).
     rewrite Hr. split; [reflexivity|]. cbn [lcallers]. eapply nth_set_nth_eq. exact Hi.
 Qed.
 
